@@ -3,6 +3,8 @@ C07 — Recover keeps exactly the valid prefix; Check accepts exactly the clean 
 -/
 import Klev.Proofs.ScanProofs
 import Klev.Proofs.SegBytesProofs
+import Klev.Proofs.RecoverCheck
+import Klev.Proofs.TornAppend
 namespace Klev.C07
 
 /-- The record scan shared by Check / Recover / Reindex / Rewrite / Migrate, on a file that
@@ -35,8 +37,193 @@ theorem recover_noop_on_clean (p : Params) (f : SegFiles) (h : Seg.check p f = .
     Seg.recover p f = .ok f :=
   Klev.recover_noop_of_check p f h
 
+/-! ### The side condition `hno` in the two cases where it is automatic -/
+
+/-- Nothing behind the records (`junk = []`): the "does not parse as a record there"
+hypothesis of the theorems below holds automatically. -/
+theorem hno_nil (ms : List Msg) :
+    ∀ m n, dec .v2 (render .v2 ms ++ []) (render .v2 ms).length ≠ .ok m n :=
+  Klev.hno_nil ms
+
+/-- A tail shorter than a record header (truncation inside a header, any content) never
+parses as a record: the hypothesis `hno` holds automatically. -/
+theorem hno_short (ms : List Msg) (junk : List UInt8) (hj : junk.length < 28) :
+    ∀ m n, dec .v2 (render .v2 ms ++ junk) (render .v2 ms).length ≠ .ok m n :=
+  Klev.hno_short ms junk hj
+
+/-- A strict prefix of an encoded record at the end of a file (truncation at *any* byte of
+the record, either log version) never parses as a record: the hypothesis `hno` holds for
+every truncation. -/
+theorem hno_truncated_record (v : Ver) (pre : List UInt8) (m : Msg) (h : m.Encodable) (j : Nat)
+    (hj : j < (enc v m).length) :
+    ∀ m' n, dec v (pre ++ (enc v m).take j) pre.length ≠ .ok m' n :=
+  Klev.torn_record_not_parsed v pre m h j hj
+
+/-! ### Clause "Recover leaves precisely the longest prefix of valid records, with a matching index" -/
+
+/-- Recover on a V2 head segment whose log is valid records followed by anything that does
+not parse as a record there, and whose index file is anything at all (missing, truncated,
+changed, extra items): it succeeds, keeps the base, and the log file it leaves is *exactly*
+the rendering of the valid records — nothing more, nothing less. -/
+theorem recover_log (p : Params) (base : Int) (ms : List Msg) (junk : List UInt8)
+    (idx : Option (List UInt8)) (h : ∀ m ∈ ms, m.Encodable)
+    (hno : ∀ m n, dec .v2 (render .v2 ms ++ junk) (render .v2 ms).length ≠ .ok m n) :
+    ∃ f', Seg.recover p ⟨base, render .v2 ms ++ junk, idx⟩ = .ok f' ∧ f'.base = base ∧
+      f'.log = render .v2 ms :=
+  Klev.recover_log p base ms junk idx h hno
+
+/-- Closed form of Recover, log *and* index, for every index configuration `p` and every
+index damage: the log is the valid prefix; the index file is left missing if it was missing
+or unparseable, left byte-for-byte alone if its items are the derived ones, and otherwise
+rewritten (in its own version) with the index derived from the valid prefix
+(`Klev.recoveredIdx`). -/
+theorem recover_eq (p : Params) (base : Int) (ms : List Msg) (junk : List UInt8)
+    (idx : Option (List UInt8)) (h : ∀ m ∈ ms, m.Encodable)
+    (hno : ∀ m n, dec .v2 (render .v2 ms ++ junk) (render .v2 ms).length ≠ .ok m n) :
+    Seg.recover p ⟨base, render .v2 ms ++ junk, idx⟩ =
+      .ok ⟨base, render .v2 ms, recoveredIdx p base (derive p .v2 ms) idx⟩ :=
+  Klev.recover_eq p base ms junk idx h hno
+
+/-- Recover of a head log truncated at every byte `j` of its last record (0 ≤ j ≤ length):
+the old records, plus the last one exactly when all of it is in the file. -/
+theorem recover_truncated (p : Params) (base : Int) (ms : List Msg) (m : Msg)
+    (idx : Option (List UInt8)) (hms : ∀ x ∈ ms, x.Encodable) (hm : m.Encodable) (j : Nat)
+    (hj : j ≤ (enc .v2 m).length) :
+    Seg.recover p ⟨base, render .v2 ms ++ (enc .v2 m).take j, idx⟩ =
+      let ms' := if j = (enc .v2 m).length then ms ++ [m] else ms
+      .ok ⟨base, render .v2 ms', recoveredIdx p base (derive p .v2 ms') idx⟩ :=
+  Klev.append_cut_recovers p base ms m idx hms hm j hj
+
+/-! ### Clause "Check succeeds iff the log parses completely and the index, if present, equals the derived index" -/
+
+/-- Check, on valid records followed by a non-record and any index file: it succeeds
+**iff** nothing follows the records and the index file is either absent or parses to
+exactly the items derived from the log. -/
+theorem check_iff (p : Params) (base : Int) (ms : List Msg) (junk : List UInt8)
+    (idx : Option (List UInt8)) (h : ∀ m ∈ ms, m.Encodable)
+    (hno : ∀ m n, dec .v2 (render .v2 ms ++ junk) (render .v2 ms).length ≠ .ok m n) :
+    Seg.check p ⟨base, render .v2 ms ++ junk, idx⟩ = .ok () ↔
+      junk = [] ∧ (idx = none ∨ ∃ ib iv items, idx = some ib ∧
+        parseIdx p ib base = .ok (iv, items) ∧
+        items = deriveScan p (scan .v2 (render .v2 ms)).recs) :=
+  Klev.check_iff p base ms junk idx h hno
+
+/-- The same for an undamaged log, with the derived index written as the model's `derive`:
+Check succeeds iff the index file is absent or holds exactly `derive p .v2 ms`. -/
+theorem check_clean_iff (p : Params) (base : Int) (ms : List Msg) (idx : Option (List UInt8))
+    (h : ∀ m ∈ ms, m.Encodable) :
+    Seg.check p ⟨base, render .v2 ms, idx⟩ = .ok () ↔
+      (idx = none ∨ ∃ ib iv items, idx = some ib ∧ parseIdx p ib base = .ok (iv, items) ∧
+        items = derive p .v2 ms) :=
+  Klev.check_clean_iff p base ms idx h
+
+/-- Check accepts every cleanly written segment that has no index file. -/
+theorem check_clean_noidx (p : Params) (base : Int) (ms : List Msg) (h : ∀ m ∈ ms, m.Encodable) :
+    Seg.check p ⟨base, render .v2 ms, none⟩ = .ok () :=
+  Klev.check_clean_noidx p base ms h
+
+/-- Check accepts every cleanly written segment whose index file (of either version, for all
+four index configurations) holds the derived items. -/
+theorem check_clean (p : Params) (base : Int) (ms : List Msg) (iv : Ver)
+    (h : ∀ m ∈ ms, m.Encodable) (hsize : (render .v2 ms).length < two63)
+    (hv1 : iv = .v1 → 0 ≤ base ∧ ∀ m ∈ ms.head?, m.off = base) :
+    Seg.check p ⟨base, render .v2 ms,
+      some (renderIdx p iv (deriveScan p (scan .v2 (render .v2 ms)).recs))⟩ = .ok () :=
+  Klev.check_clean p base ms iv h hsize hv1
+
+/-! ### Clause "after Recover, Check succeeds" -/
+
+/-- After Recover — whatever followed the valid records and whatever the index file held —
+Check succeeds on the files Recover left. -/
+theorem check_after_recover (p : Params) (base : Int) (ms : List Msg) (junk : List UInt8)
+    (idx : Option (List UInt8)) (h : ∀ m ∈ ms, m.Encodable)
+    (hno : ∀ m n, dec .v2 (render .v2 ms ++ junk) (render .v2 ms).length ≠ .ok m n)
+    (hsize : (render .v2 ms).length < two63)
+    (hbase : 0 ≤ base) (hfirst : ∀ m ∈ ms.head?, m.off = base) :
+    ∀ f', Seg.recover p ⟨base, render .v2 ms ++ junk, idx⟩ = .ok f' → Seg.check p f' = .ok () :=
+  Klev.check_after_recover p base ms junk idx h hno hsize hbase hfirst
+
+/-- Recover is idempotent: a second Recover on what the first one left is a byte-for-byte
+no-op (consequence of `check_after_recover` and `recover_noop_on_clean`), for every tail
+and every index damage. -/
+theorem recover_idempotent (p : Params) (base : Int) (ms : List Msg) (junk : List UInt8)
+    (idx : Option (List UInt8)) (h : ∀ m ∈ ms, m.Encodable)
+    (hno : ∀ m n, dec .v2 (render .v2 ms ++ junk) (render .v2 ms).length ≠ .ok m n)
+    (hsize : (render .v2 ms).length < two63)
+    (hbase : 0 ≤ base) (hfirst : ∀ m ∈ ms.head?, m.off = base) :
+    ∀ f', Seg.recover p ⟨base, render .v2 ms ++ junk, idx⟩ = .ok f' →
+      Seg.recover p f' = .ok f' := fun f' hf =>
+  Klev.recover_noop_of_check p f'
+    (Klev.check_after_recover p base ms junk idx h hno hsize hbase hfirst f' hf)
+
+/-- The instance for a log truncated at any byte inside its last record: Recover on the
+result of Recover changes nothing. -/
+theorem recover_idempotent_on_result' (p : Params) (base : Int) (ms : List Msg) (m : Msg)
+    (idx : Option (List UInt8)) (hms : ∀ x ∈ ms, x.Encodable) (hm : m.Encodable) (j : Nat)
+    (hj : j < (enc .v2 m).length) (hsize : (render .v2 ms).length < two63) (hbase : 0 ≤ base)
+    (hfirst : ∀ x ∈ ms.head?, x.off = base) :
+    ∀ f', Seg.recover p ⟨base, render .v2 ms ++ (enc .v2 m).take j, idx⟩ = .ok f' →
+      Seg.recover p f' = .ok f' :=
+  Klev.recover_idempotent_on_result' p base ms m idx hms hm j hj hsize hbase hfirst
+
+/-- A log cut at *any* byte `c` of a batch of appended records (so: truncation at every
+length at/after the old end): what Recover leaves passes Check, and a second Recover is a
+no-op. -/
+theorem truncated_batch_check (p : Params) (base : Int) (ms bs : List Msg)
+    (idx : Option (List UInt8)) (hms : ∀ x ∈ ms, x.Encodable) (hbs : ∀ x ∈ bs, x.Encodable)
+    (c : Nat) (hc : c ≤ (encAll .v2 bs).length)
+    (hsize : (render .v2 (ms ++ bs)).length < two63) (hbase : 0 ≤ base)
+    (hfirst : ∀ x ∈ (ms ++ bs).head?, x.off = base) :
+    ∀ f', Seg.recover p ⟨base,
+        (render .v2 ms ++ encAll .v2 bs).take ((render .v2 ms).length + c), idx⟩ = .ok f' →
+      Seg.check p f' = .ok () ∧ Seg.recover p f' = .ok f' :=
+  Klev.torn_batch_check p base ms bs idx hms hbs c hc hsize hbase hfirst
+
+/-! ### Clause "… and keeps succeeding after further appends" -/
+
+/-- If Check passes on a cleanly written segment with its derived index, it still passes
+after more records are appended and the index is the derived one of the longer log. -/
+theorem check_stable_append (p : Params) (base : Int) (ms ms2 : List Msg) (iv : Ver)
+    (h1 : ∀ m ∈ ms, m.Encodable) (h2 : ∀ m ∈ ms2, m.Encodable)
+    (hsize : (render .v2 (ms ++ ms2)).length < two63)
+    (hv1 : iv = .v1 → 0 ≤ base ∧ ∀ m ∈ (ms ++ ms2).head?, m.off = base)
+    (hc : Seg.check p ⟨base, render .v2 ms,
+      some (renderIdx p iv (deriveScan p (scan .v2 (render .v2 ms)).recs))⟩ = .ok ()) :
+    Seg.check p ⟨base, render .v2 (ms ++ ms2),
+      some (renderIdx p iv (deriveScan p (scan .v2 (render .v2 (ms ++ ms2))).recs))⟩ = .ok () :=
+  Klev.check_stable_append p base ms ms2 iv h1 h2 hsize hv1 hc
+
+/-- The same on the bytes a writer actually produces: the log file grows by the encoded
+records, the index file by the encoded items of those records, derived from where the file
+size and the index time carry stood. Check passes on the grown files. -/
+theorem check_stable_append_bytes (p : Params) (base : Int) (ms ms2 : List Msg) (iv : Ver)
+    (h1 : ∀ m ∈ ms, m.Encodable) (h2 : ∀ m ∈ ms2, m.Encodable)
+    (hsize : (render .v2 (ms ++ ms2)).length < two63)
+    (hv1 : iv = .v1 → 0 ≤ base ∧ ∀ m ∈ (ms ++ ms2).head?, m.off = base) :
+    Seg.check p ⟨base, render .v2 ms ++ encAll .v2 ms2,
+      some (renderIdx p iv (derive p .v2 ms) ++
+        (deriveFrom p (tsAfter p 0 (layout .v2 ms))
+          (layoutFrom .v2 ((render .v2 ms).length : Int) ms2)).flatMap (encItem p))⟩ = .ok () :=
+  Klev.check_stable_append_bytes p base ms ms2 iv h1 h2 hsize hv1
+
 end Klev.C07
 
 #print axioms Klev.C07.scan_valid_prefix
 #print axioms Klev.C07.short_tail_is_corruption
 #print axioms Klev.C07.recover_noop_on_clean
+#print axioms Klev.C07.hno_nil
+#print axioms Klev.C07.hno_short
+#print axioms Klev.C07.hno_truncated_record
+#print axioms Klev.C07.recover_log
+#print axioms Klev.C07.recover_eq
+#print axioms Klev.C07.recover_truncated
+#print axioms Klev.C07.check_iff
+#print axioms Klev.C07.check_clean_iff
+#print axioms Klev.C07.check_clean_noidx
+#print axioms Klev.C07.check_clean
+#print axioms Klev.C07.check_after_recover
+#print axioms Klev.C07.recover_idempotent
+#print axioms Klev.C07.recover_idempotent_on_result'
+#print axioms Klev.C07.truncated_batch_check
+#print axioms Klev.C07.check_stable_append
+#print axioms Klev.C07.check_stable_append_bytes
